@@ -3,7 +3,12 @@
 package corerad
 
 import (
+	"context"
+	"fmt"
 	"net/netip"
+	"reflect"
+	"sync"
+	"testing/synctest"
 	"sort"
 	"strconv"
 	"strings"
@@ -385,6 +390,13 @@ func c12Live(t *testing.T, r *vfh.Rand, out *vfh.Out) {
 		ifi.Plugins = append(ifi.Plugins, dep)
 	}
 	if r.Bool() {
+		// names and servers in an order that is not the sorted one
+		ifi.Plugins = append(ifi.Plugins, &plugin.DNSSL{Lifetime: time.Hour, DomainNames: []string{"lan.example.com", "corp.example.com", "example.com"}})
+	}
+	if r.Bool() {
+		ifi.Plugins = append(ifi.Plugins, &plugin.RDNSS{Lifetime: time.Hour, Servers: []netip.Addr{netip.MustParseAddr("fd00::53"), netip.MustParseAddr("2001:db8::54"), netip.MustParseAddr("2001:db8::53")}})
+	}
+	if r.Bool() {
 		ifi.Plugins = append(ifi.Plugins, plugin.NewMTU(vfh.Pick(r, []int{1280, 1500})))
 	}
 	if r.Bool() {
@@ -453,6 +465,8 @@ func c12Live(t *testing.T, r *vfh.Rand, out *vfh.Out) {
 			got = rt
 		}
 		before, hooksBefore := counts(), hooks
+		// a deep snapshot of the own RA (its options alias the configuration's slices)
+		snap, snapErr := ndp.MarshalMessage(own)
 		ip, err := a.handle(got, netip.MustParseAddr("fe80::2"))
 		if err != nil || ip.IsValid() {
 			t.Fatalf("handle(RA) = %v, %v", ip, err)
@@ -464,7 +478,76 @@ func c12Live(t *testing.T, r *vfh.Rand, out *vfh.Out) {
 			}
 		}
 		c12Emit(out, own, got, hooks > hooksBefore, cps, c12CIDRs(own, got))
+		// the received RA is compared with the RA the configuration produces; the configuration
+		// itself stays what it was: the same state yields the same RA afterwards
+		again, _, err := ifi.RouterAdvertisement(true)
+		mutated := err != nil
+		if !mutated && snapErr == nil {
+			b, merr := ndp.MarshalMessage(again)
+			mutated = merr != nil || !reflect.DeepEqual(snap, b)
+		}
+		var doms, uris vfh.Interner
+		out.Line(new(vfh.Toks).S("cfgmut").RA(again, &doms, &uris).RA(got, &doms, &uris).String(), new(vfh.Toks).B(mutated).String())
 	}
+}
+
+// runVerifyBurst: a burst of n inconsistent RAs from another router while the first report is still
+// being processed (a slow log sink, a blocking hook).  Every received RA is judged: n reports, n
+// increments of the counter — none is shed.
+//
+//	vburst n | hooks counted
+func runVerifyBurst(t *testing.T, out *vfh.Out, n int) {
+	out.Pending(fmt.Sprintf("runVerifyBurst n=%d", n))
+	synctest.Test(t, func(t *testing.T) {
+		v := newVfAdv(vfAdvConfig(200*time.Second, 600*time.Second, false, 1800*time.Second), false, nil)
+		release := make(chan struct{})
+		var mu sync.Mutex
+		hooks := 0
+		v.a.OnInconsistentRA = func(_, _ *ndp.RouterAdvertisement) {
+			mu.Lock()
+			hooks++
+			first := hooks == 1
+			mu.Unlock()
+			if first {
+				<-release
+			}
+		}
+		ctx, cancel := context.WithCancel(context.Background())
+		done := make(chan error, 1)
+		go func() { done <- v.a.Run(ctx) }()
+		synctest.Wait()
+		time.Sleep(time.Second + 1)
+		// differs from the own RA in the managed flag
+		bad := &ndp.RouterAdvertisement{CurrentHopLimit: 64, ManagedConfiguration: true, RouterLifetime: 1800 * time.Second}
+		go func() {
+			for k := 0; k < n; k++ {
+				v.conn.deliver(vfRead{m: bad, hop: 255, host: vfHosts[2].WithZone("vf0")})
+			}
+		}()
+		time.Sleep(2 * time.Second)
+		close(release)
+		time.Sleep(30 * time.Second)
+		synctest.Wait()
+		counted := 0
+		series, _ := v.mm.Series()
+		for name, s := range series {
+			if name == advInconsistencies {
+				for _, x := range s.Samples {
+					counted += int(x)
+				}
+			}
+		}
+		mu.Lock()
+		h := hooks
+		mu.Unlock()
+		cancel()
+		select {
+		case <-done:
+		case <-time.After(10 * time.Minute):
+		}
+		out.Line(new(vfh.Toks).S("vburst").N(n).String(), new(vfh.Toks).N(h).N(counted).String())
+		out.Flush()
+	})
 }
 
 func c12RoundTrip(ra *ndp.RouterAdvertisement) (*ndp.RouterAdvertisement, bool) {
@@ -481,6 +564,9 @@ func c12RoundTrip(ra *ndp.RouterAdvertisement) (*ndp.RouterAdvertisement, bool) 
 }
 
 func verifC12(t *testing.T, r *vfh.Rand, out *vfh.Out) {
+	for _, n := range []int{1, 2, 16, 17, 18, 25, 40} {
+		runVerifyBurst(t, out, n)
+	}
 	for k := vfh.N(600, 15000); k > 0; k-- {
 		c12Live(t, r, out)
 	}
